@@ -94,13 +94,15 @@ namespace {
 struct Ctx
 {
   uint64_t hash = 1469598103934665603ULL;
-  std::map<std::string, long> probes, faults, diags;
+  std::map<std::string, long> probes, faults, diags, known_hits;
+  std::string known_detail;
   double sim_s = 0;
   std::string first_diag;
   FILE* trace = nullptr;
 } g;
 std::string g_scratch;
 bool g_trace = false;
+std::vector<std::string> g_known_oracles;
 
 void
 fold(const void* p, size_t n)
@@ -130,6 +132,22 @@ fail(const std::string& oracle, const char* fmt, ...)
   va_start(ap, fmt);
   std::string d = vfmt(fmt, ap);
   va_end(ap);
+  throw Violation{ oracle, d };
+}
+void
+fail_soft(const std::string& oracle, const char* fmt, ...)
+{
+  va_list ap;
+  va_start(ap, fmt);
+  std::string d = vfmt(fmt, ap);
+  va_end(ap);
+  for (auto& k : g_known_oracles)
+    if (k == oracle)
+      {
+        if (g.known_hits[oracle]++ == 0 && g.known_detail.empty())
+          g.known_detail = d;
+        return;
+      }
   throw Violation{ oracle, d };
 }
 void
@@ -382,6 +400,8 @@ execute(const Harness& h, const Plan& p)
   r.probes = g.probes;
   r.faults = g.faults;
   r.diags = g.diags;
+  r.known_hits = g.known_hits;
+  r.known_detail = g.known_detail;
   r.sim_s = g.sim_s;
   if (!g.first_diag.empty() && r.detail.empty() && r.status == "ok")
     r.detail = "diag " + g.first_diag;
@@ -519,11 +539,12 @@ emit(FILE* out, long idx, const Plan& p, const Result& r, const std::string& rep
   fprintf(out,
           "{\"run\":%ld,\"seed\":%llu,\"class\":\"%s\",\"ops\":%ld,\"result\":\"%s\",\"oracle\":\"%s\",\"detail\":\"%s\","
           "\"hash\":\"%llx\",\"sched_hash\":\"%llx\",\"switches\":%ld,\"yields\":%ld,\"sim_s\":%.6g,\"nontrivial\":%s,"
-          "\"hist\":\"%s\",\"faults\":%s,\"probes\":%s,\"diags\":%s,\"sites\":\"%s\",\"replay\":\"%s\"",
+          "\"hist\":\"%s\",\"faults\":%s,\"probes\":%s,\"diags\":%s,\"known_hits\":%s,\"known_detail\":\"%s\",\"sites\":\"%s\",\"replay\":\"%s\"",
           idx, (unsigned long long)p.seed, r.cls.c_str(), r.ops, r.status.c_str(), json_escape(r.oracle).c_str(),
           json_escape(r.detail).c_str(), (unsigned long long)r.hash, (unsigned long long)r.sched_hash, r.switches, r.yields,
           r.sim_s, r.nontrivial ? "true" : "false", json_escape(r.hist).c_str(), map_json(r.faults).c_str(),
-          map_json(r.probes).c_str(), map_json(r.diags).c_str(), r.sites.c_str(), json_escape(replay).c_str());
+          map_json(r.probes).c_str(), map_json(r.diags).c_str(), map_json(r.known_hits).c_str(), json_escape(r.known_detail).c_str(),
+          r.sites.c_str(), json_escape(replay).c_str());
   if (!sample_plan.empty())
     fprintf(out, ",\"plan\":\"%s\"", json_escape(sample_plan).c_str());
   fprintf(out, "}\n");
@@ -638,6 +659,19 @@ main_driver(int argc, char** argv, Harness& h)
   const std::string tier = arg_of(argc, argv, "--tier", "quick");
   const uint64_t base_seed = strtoull(arg_of(argc, argv, "--base-seed", "1").c_str(), nullptr, 10);
   const std::string replay_dir = arg_of(argc, argv, "--replay-dir", "/verif/replays");
+  {
+    std::string ko = arg_of(argc, argv, "--known-oracles");
+    size_t a = 0;
+    while (a <= ko.size() && !ko.empty())
+      {
+        size_t b = ko.find(',', a);
+        if (b == std::string::npos)
+          b = ko.size();
+        if (b > a)
+          g_known_oracles.push_back(ko.substr(a, b - a));
+        a = b + 1;
+      }
+  }
   const bool keep_output = has_flag(argc, argv, "--verbose") || g_trace;
   if (!keep_output)
     {
